@@ -111,7 +111,7 @@ def unit(name, functions, loops, clauses, body, kf=(), extra_inject=(), extra=No
         # bounded native run of the REAL C++ class (not the extraction): decides changes that fall outside the extractor's dialect
         meta['native_cxx_probes'] = [{'file': 'units/C02/native/vector_model_probe.cpp', 'run': True,
                                       'what': 'real igris::vector<T> (not the extraction) against std::vector with a lifetime-tracking element type',
-                                      'bound': 'one operation (push_back/insert with outside or self-aliasing argument, emplace, erase, pop_back, resize, reserve, clear, copy/move) from every start state of 0..4 elements with and without spare capacity: 1050 state x operation pairs'}]
+                                      'bound': 'one operation (push_back/insert with outside or self-aliasing argument, emplace, erase, pop_back, resize, reserve, clear, copy/move, ==, !=, < against shortened / changed copies) from every start state of 0..4 elements with and without spare capacity: 1200 state x operation pairs'}]
     if name == 'op_lt':
         meta['loop_contracts_in_unit'] = 1        # the loop contract of the std::lexicographical_compare stub (spec/c02_std_algo.h)
     meta['defines'] = ['C02_G_' + x for x in GROUPS.get(name, [])]
